@@ -1044,6 +1044,9 @@ def run(ctx, tier):
     results += thresholds(ctx)
     results += pagesize_limits(ctx)
     results += check_refusals(ctx)
+    results += c05.no_narrowing(ctx, rule='C16.no-narrowing')
+    import c01
+    results += c01.root_loaded(ctx, rule='C16.root-loaded')
     import c02
     results += c02.reload_rule(ctx, rule='C16.reload')
     import c06, c09
